@@ -593,7 +593,10 @@ def _int_bounds(chk: Check) -> None:
         if isinstance(e, ast.Name) and e.id == idx:
             return {"I": 1}, 0
         if isinstance(e, ast.Name) and e.id in al:
-            return sym(al[e.id])
+            try:
+                return _lin(al[e.id], sym)       # a local bound once stands for its (linear) value
+            except Outside:
+                return None
         if isinstance(e, ast.Call) and isinstance(e.func, ast.Attribute) and e.func.attr == "__index__" \
                 and not e.args:
             return sym(e.func.value)
